@@ -161,6 +161,21 @@ pub struct WCx {
     pub case: u64,
     /// `c` of the allocation bound (bytes of heap per input byte)
     pub c: usize,
+    /// 0 = full per-case workload; 1 = valgrind (≈40× slower); 2 = Miri (≈1000× slower):
+    /// the inner loops of a case are shortened, the case kinds stay the same
+    pub light: u8,
+}
+
+impl WCx {
+    /// per-case loop length for this lane
+    fn n(&self, full: usize, heavy: bool) -> usize {
+        let base = if heavy { full.div_ceil(3) } else { full };
+        match self.light {
+            0 => base,
+            1 => base.div_ceil(4).max(1),
+            _ => base.div_ceil(16).max(1),
+        }
+    }
 }
 
 #[cfg(not(miri))]
@@ -213,6 +228,7 @@ fn judge(cx: &WCx, rep: &mut Report, name: &str, op: &str, input: &[u8], m: &Met
     }
     if cx.cpu {
         rep.max("cpu_us", m.cpu_ns / 1000);
+        rep.max(&format!("cpu_us:{op}"), m.cpu_ns / 1000);
         let cpu_bound = CPU_BASE_NS + CPU_PER_BYTE_NS * len as u64;
         if m.cpu_ns > cpu_bound {
             rep.violation(
@@ -477,8 +493,7 @@ fn mutate(base: &[u8], rng: &mut Rng) -> Vec<u8> {
     b
 }
 
-fn program_bombs(rng: &mut Rng, thorough: bool) -> Vec<(&'static str, Vec<u8>)> {
-    let nmax = if thorough { 1_000_000 } else { 100_000 };
+fn program_bombs(rng: &mut Rng, nmax: usize) -> Vec<(&'static str, Vec<u8>)> {
     let n = match rng.below(4) {
         0 => nmax,
         1 => nmax / 10,
@@ -605,7 +620,7 @@ pub fn case<T: Ty>(e: &Typed<T>, rng: &mut Rng, rep: &mut Report, cx: &mut WCx, 
 }
 
 fn k_random<T: Ty>(e: &Typed<T>, rng: &mut Rng, rep: &mut Report, cx: &mut WCx) {
-    let n = if e.flags & F_HEAVY != 0 { 8 } else { 24 };
+    let n = cx.n(24, e.flags & F_HEAVY != 0);
     for _ in 0..n {
         let input = random_input(rng);
         both(e, &input, cx, rep);
@@ -619,7 +634,7 @@ fn k_mutated<T: Ty>(e: &Typed<T>, rng: &mut Rng, rep: &mut Report, cx: &mut WCx)
     if a != Dec::Accepted || b != Dec::Accepted {
         rep.count(&format!("valid_encoding_not_accepted:{}", e.name));
     }
-    let n = if e.flags & F_HEAVY != 0 { 12 } else { 40 };
+    let n = cx.n(40, e.flags & F_HEAVY != 0);
     for _ in 0..n {
         let m = mutate(&enc, rng);
         both(e, &m, cx, rep);
@@ -634,7 +649,11 @@ fn k_windows<T: Ty>(e: &Typed<T>, rng: &mut Rng, rep: &mut Report, cx: &mut WCx)
         return;
     }
     let windows = n - 3;
-    let limit = if e.flags & F_HEAVY != 0 { 96 } else { 768 };
+    let limit = match cx.light {
+        0 => if e.flags & F_HEAVY != 0 { 96 } else { 768 },
+        1 => 48,
+        _ => 8,
+    };
     let positions: Vec<usize> = if windows <= limit {
         (0..windows).collect()
     } else {
@@ -664,24 +683,28 @@ fn k_bombs<T: Ty>(e: &Typed<T>, rng: &mut Rng, rep: &mut Report, cx: &mut WCx) {
         &[1, 0, 0, 0, 2],
         &[0, 0, 0, 2, 1],
     ];
-    let max = if cx.thorough { 65_536 } else { 16_384 };
+    let max = match cx.light {
+        0 => if cx.thorough { 65_536 } else { 16_384 },
+        1 => 4096,
+        _ => 512,
+    };
     // pure patterns
-    for _ in 0..3 {
+    for _ in 0..cx.n(3, false) {
         let pat = *rng.pick(&PATTERNS);
-        let len = *rng.pick(&[64usize, 1024, 4096, max]);
+        let len = (*rng.pick(&[64usize, 1024, 4096, max])).min(max);
         let input: Vec<u8> = pat.iter().copied().cycle().take(len).collect();
         both(e, &input, cx, rep);
         rep.count("bombs:pattern");
     }
     // a valid prefix, a hostile count, then a repeated pattern the elements are parsed from
     let Some((_, enc)) = valid(e, rng, rep) else { return };
-    for _ in 0..(if e.flags & F_HEAVY != 0 { 3 } else { 8 }) {
+    for _ in 0..cx.n(8, e.flags & F_HEAVY != 0) {
         let cut = rng.usize(enc.len() + 1);
         let mut input = enc[..cut].to_vec();
         let count = *rng.pick(&[0xffff_ffffu32, 0x00ff_ffff, 0x0001_0000, 0x0000_1000, 0x8000_0000, 0x0020_0000]);
         input.extend_from_slice(&count.to_be_bytes());
         let pat = *rng.pick(&PATTERNS);
-        let fill = *rng.pick(&[16usize, 256, 4096, max]);
+        let fill = (*rng.pick(&[16usize, 256, 4096, max])).min(max);
         input.extend(pat.iter().copied().cycle().take(fill));
         both(e, &input, cx, rep);
         rep.count("bombs:count-then-pattern");
@@ -690,7 +713,16 @@ fn k_bombs<T: Ty>(e: &Typed<T>, rng: &mut Rng, rep: &mut Report, cx: &mut WCx) {
 
 fn k_program<T: Ty>(e: &Typed<T>, rng: &mut Rng, rep: &mut Report, cx: &mut WCx) {
     let Some(walk) = e.walk else { return };
-    for (label, bomb) in program_bombs(rng, cx.thorough) {
+    let nmax = match cx.light {
+        0 => if cx.thorough { 1_000_000 } else { 100_000 },
+        1 => 20_000,
+        _ => 600,
+    };
+    let mut bombs = program_bombs(rng, nmax);
+    if cx.light > 0 {
+        bombs.truncate(if cx.light == 1 { 8 } else { 3 });
+    }
+    for (label, bomb) in bombs {
         // plant the raw bytes in one Program field of a generated value
         let mut input = None;
         for _ in 0..8 {
@@ -788,6 +820,10 @@ fn toggle_site(hw: Hw<'_>, rng: &mut Rng) {
 fn sweep_at<T: Ty>(e: &Typed<T>, enc: &[u8], pos: usize, cx: &mut WCx, rep: &mut Report) {
     let mut buf = enc.to_vec();
     for val in 0..=255u8 {
+        // Miri: the 16 low values (all defined prefix bits) and a sample of the rest
+        if cx.light == 2 && val >= 16 && val % 37 != 0 && val < 0xfe {
+            continue;
+        }
         buf[pos] = val;
         both(e, &buf, cx, rep);
     }
@@ -829,7 +865,7 @@ fn k_sweep<T: Ty>(e: &Typed<T>, rng: &mut Rng, rep: &mut Report, cx: &mut WCx) {
     }
     // (b) bytes that look like Option/bool/discriminant prefixes
     let cands: Vec<usize> = (0..enc.len()).filter(|i| enc[*i] <= 3).collect();
-    let take = if heavy { 2 } else { 8 };
+    let take = cx.n(8, heavy);
     for _ in 0..take.min(cands.len()) {
         let pos = cands[rng.usize(cands.len())];
         sweep_at(e, &enc, pos, cx, rep);
@@ -840,7 +876,11 @@ fn k_trunc<T: Ty>(e: &Typed<T>, rng: &mut Rng, rep: &mut Report, cx: &mut WCx) {
     let Some((_, enc)) = valid(e, rng, rep) else { return };
     let (a, b) = both(e, &enc, cx, rep);
     let n = enc.len();
-    let offsets: Vec<usize> = if n <= 2048 {
+    let offsets: Vec<usize> = if cx.light > 0 && n > 64 {
+        // supporting lanes: a stratified sample of the offsets
+        let k = if cx.light == 1 { 64 } else { 12 };
+        (0..k).map(|i| i * n / k + rng.usize(n / k)).filter(|x| *x < n).collect()
+    } else if n <= 2048 {
         (0..n).collect()
     } else {
         let mut o: Vec<usize> = (0..256).map(|i| i * n / 256 + rng.usize(n / 256)).filter(|x| *x < n).collect();
